@@ -164,3 +164,56 @@ def realisable_wacc(P):
         w = 0.5
     P['wacc'] = w
     return P
+
+
+# ------------------------------------------------------------------------------- random small instances
+VALUES = [-2.0, -1.0, -0.5, 0.0, 0.0, 0.5, 1.0, 1.0, 2.0, 3.0]
+POS = [0.25, 0.5, 1.0, 1.0, 1.0, 1.5, 2.0]
+
+
+def sample_params(schema, rng, max_size=4, hooks=None):
+    """a random small assignment for a contract schema.  Conventions: int parameters are sizes in
+    [0, max_size] (g_T >= 1); r_I is a contiguous window inside [0, g_T); g_dt positive; other real
+    functions / scalars from a small menu of values (incl. 0 and negative numbers)."""
+    hooks = hooks or {}
+    P = Params()
+    for (name, kind, size) in schema:
+        if name in hooks:
+            continue
+        if kind == 'int':
+            if name == 'g_T':
+                P[name] = rng.randint(1, max_size)
+            elif name == 'r_n':
+                P[name] = None
+            else:
+                P[name] = rng.randint(0, max_size)
+        elif kind == 'real':
+            P[name] = rng.choice(VALUES)
+        elif kind == 'bool':
+            P[name] = rng.random() < 0.5
+    if 'r_n' in P:
+        T = P.get('g_T', max_size)
+        n = rng.choice([T, T, rng.randint(0, T)])
+        a = rng.randint(0, T - n)
+        P['r_n'] = n
+        P['r_I'] = list(range(a, a + n))
+    for (name, kind, size) in schema:
+        if name in hooks:
+            P[name] = hooks[name](P, rng)
+    for (name, kind, size) in schema:
+        if not kind.endswith('_fun') or name in P:
+            continue
+        n = P[size] if isinstance(size, str) else int(size)
+        if name == 'g_dt':
+            P[name] = [rng.choice(POS) for _ in range(n)] if rng.random() < 0.6 else [1.0] * n
+        elif name == 'g_df':
+            P[name] = [1.0] * n
+        elif name == 'g_tp':
+            P[name] = [10 * k for k in range(n)]
+        elif kind == 'int_fun':
+            P[name] = [rng.randint(0, max_size) for _ in range(n)]
+        elif kind == 'bool_fun':
+            P[name] = [rng.random() < 0.6 for _ in range(n)]
+        else:
+            P[name] = [rng.choice(VALUES) for _ in range(n)]
+    return P
